@@ -1,4 +1,5 @@
 import ACModel.Proofs.GroupedList
+import ACModel.Proofs.Refine
 /-
   C13 — GroupedList stays a consistent ordered partition under any history
 
@@ -403,6 +404,87 @@ theorem C13_values_monotone_update {g : GL} (h : g.WF) (d : Dict) (hd : ValidUpd
     exact ⟨y, (mem_update _ _ h.2.1 hd.1 y).2 (Or.inr hy), hvy⟩
   · exact ⟨x, (mem_update _ _ h.2.1 hd.1 x).2 (Or.inl ⟨hx, hxd⟩), hvx⟩
 
+/-! ## Refinement: each operation's effect equals that of the plain reference model
+
+  `RefGL` (`Spec/GroupedList.lean`) is an ordered list `leader ↦ members` with the obvious
+  operations; `abs` reads the concrete state in list order.  The square commutes for every valid
+  operation on a well-formed state — including the operations that raise (the reference model then
+  leaves the state alone, or, for `group_list`, keeps the effect of the elements already grouped). -/
+
+theorem eraseDups_of_nodup : ∀ {l : List Val}, l.Nodup → l.eraseDups = l
+  | [], _ => rfl
+  | a :: t, hn => by
+    have hn' := List.nodup_cons.1 hn
+    rw [List.eraseDups_cons]
+    have : t.filter (fun b => !b == a) = t := by
+      apply List.filter_eq_self.2
+      intro b hb
+      have : b ≠ a := fun e => hn'.1 (e ▸ hb)
+      simp [this]
+    rw [this, eraseDups_of_nodup hn'.2]
+
+/-- the reference model reads a `sort_by` ordering with repeated values as its first occurrences;
+    the refinement is proved for duplicate-free orderings -/
+def Refinable : Op → Prop
+  | .sortBy o => o.Nodup
+  | _ => True
+
+instance (op : Op) : Decidable (Refinable op) := by
+  cases op <;> unfold Refinable <;> infer_instance
+
+/-- **One step**: `abs (step g op) = RefGL.step (abs g) op`. -/
+theorem C13_refinement {g : GL} (h : g.WF) (op : Op) (hv : Valid g op) (hr : Refinable op) :
+    abs (step g op).1 = RefGL.step (abs g) op := by
+  have h' := (wf_iff g).1 h
+  cases op with
+  | group d k => exact abs_group h' d k
+  | groupList ds k => exact abs_groupList h' ds k
+  | append v => exact abs_append h' v hv
+  | update d => exact abs_update h' d hv
+  | remove v =>
+    show abs (g.remove v).1 = _
+    rw [abs_remove h' v]
+    simp only [RefGL.step, leaders_abs]
+  | pop i =>
+    show abs (g.pop i).1 = _
+    rw [abs_pop h' i]
+    simp only [RefGL.step, leaders_abs]
+    cases pyIndex g.lst i <;> rfl
+  | sort =>
+    simp only [step, RefGL.step, sort_eq h', leaders_abs]
+    have := abs_sort h'
+    rw [sort_eq h'] at this
+    exact this
+  | sortBy o =>
+    have hn : o.Nodup := hr
+    have := abs_sortBy h' o hn
+    simp only [step, RefGL.step, eraseDups_of_nodup hn]
+    cases hs : g.sortBy o with
+    | ok g' => rw [hs] at this; exact this
+    | error e => rw [hs] at this; exact this
+  | replaceLeader l m =>
+    exact abs_replaceLeader h' l m hv
+  | groupNan d k =>
+    cases d with
+    | nan => cases k <;> rfl
+    | val d =>
+      cases k with
+      | nan =>
+        simp only [step, RefGL.step]
+        split <;> rfl
+      | val k => exact abs_group h' d k
+
+/-- **Any history**: running a valid history on the implementation model and on the reference
+    model from corresponding states ends in corresponding states. -/
+theorem C13_refinement_run {g : GL} (h : g.WF) (ops : List Op) (hv : ValidRun g ops)
+    (hr : ∀ op ∈ ops, Refinable op) : abs (run g ops) = ops.foldl RefGL.step (abs g) := by
+  induction ops generalizing g with
+  | nil => rfl
+  | cons op ops ih =>
+    simp only [run, List.foldl_cons]
+    rw [← C13_refinement h op hv.1 (hr op List.mem_cons_self)]
+    exact ih (C13_step_WF h op hv.1) hv.2 (fun o ho => hr o (List.mem_cons_of_mem _ ho))
+
 /-! ## Non-vacuity: concrete states and histories that meet the hypotheses -/
 
 private def ex1 : GL := ofList [.str "a", .str "b", .num 1, .str "__NAN__"]
@@ -416,5 +498,9 @@ example : (match ofDict [(.str "a", [.str "b"]), (.str "c", [.str "c", .str "a"]
     | .ok g => decide (g = ⟨[.str "c"], [(.str "c", [.str "c", .str "a"])]⟩)
     | .error _ => false) = true := by decide
 example : ValidUpdate (ofList [.str "1", .str "b"]) [(.str "1", [.num 1, .str "1"])] := by decide
+example : ∀ op ∈ [Op.group (.str "a") (.str "b"), .append (.num 0), .sort,
+    .replaceLeader (.str "b") (.str "a"), .pop (-1)], Refinable op := by decide
+example : [Op.group (.str "a") (.str "b"), .append (.num 0), .sort, .replaceLeader (.str "b") (.str "a"), .pop (-1)].foldl
+    RefGL.step (abs ex1) = [(.str "__NAN__", [.str "__NAN__"]), (.str "a", [.str "a", .str "b"]), (.num 0, [.num 0])] := by decide
 
 end GL
